@@ -15,7 +15,8 @@ EXPLANATION = (
     "_add_compound extracted path by path: the absorbing constant is returned only under `t in content` or the complement test, the neutral constant "
     "only for an empty content that is not a placeholder, neutral elements are filtered with `x != f`, the single-child shortcut `content[0]` is "
     "taken only on paths where `readonly` holds and `update is None` (a node that may later be extended by add_disjunct is never collapsed), a "
-    "mutable disjunction is added with reuse=False (never hash-consed with another node), and hash-consing is switched off under keep_all; G5 "
+    "mutable disjunction is added with reuse=False (never hash-consed with another node), every caller that creates a placeholder passes a `readonly` "
+    "that folds to False when placeholder is True (a placeholder is extended later, so it must be mutable), and hash-consing is switched off under keep_all; G5 "
     "add_disjunct returns TRUE keys unchanged, raises for the FALSE key and for non-disjunctive nodes before updating, and every updating path "
     "replaces the node at `key` with a disjunction that contains the old children and the new component; G7 negate maps TRUE<->FALSE and x -> -x. "
     "The Boolean meaning of returned keys for arbitrary call sequences is not decided."
@@ -201,6 +202,44 @@ def rule_g4b(repo, col):
                "_add: %s" % bad, construct="def _add: reuse=False discipline", function="LogicFormula._add")
 
 
+def rule_g4c(repo, col):
+    """a placeholder disjunction is extended later through add_disjunct: it must be created mutable (readonly=False), or it is hash-consed with every
+    other empty placeholder of the formula"""
+    from ..astutil import const_value
+
+    c = repo.cls(MOD, "LogicFormula")
+    n = 0
+    for f in c.methods.values():
+        params = set(f.params) | set(a.arg for a in f.node.args.kwonlyargs)
+        for call in walk_no_nested(f.node):
+            if not (isinstance(call, ast.Call) and dotted(call.func) == "self._add_compound"):
+                continue
+            kw = {k.arg: k.value for k in call.keywords if k.arg}
+            if "placeholder" not in kw:
+                continue
+            pe = kw["placeholder"]
+            if isinstance(pe, ast.Constant) and pe.value is False:
+                continue
+            n += 1
+            re_ = kw.get("readonly")
+            if re_ is None:
+                col.fail("G4", f.module, call, "%s creates a placeholder without readonly=: _add_compound's default readonly=True lets the placeholder be shared" % f.qualname, function=f.qualname)
+                continue
+            verdicts = []
+            for rv in (True, False):
+                env = {norm(pe): True} if isinstance(pe, ast.Name) else {}
+                env.update({x: rv for x in params if x == "readonly"})
+                okf, v = const_value(re_, env)
+                if not okf:
+                    raise AnalysisError("%s: readonly=%s not decidable for placeholder=True" % (f.qualname, norm(re_)))
+                verdicts.append(bool(v))
+            col.decide("G4", f.module, call, not any(verdicts), "a placeholder disjunction is created mutable (readonly evaluates to False when placeholder is True)",
+                       "%s passes readonly=%s to _add_compound: for placeholder=True this is not always False, so the empty placeholder goes through the read-only branch, is entered into "
+                       "the sharing index and is identified with every other empty placeholder - add_disjunct on one of them then changes the meaning of all" % (f.qualname, norm(re_)),
+                       construct="%s: placeholder readonly" % f.qualname, function=f.qualname)
+    col.floor("G4.placeholder_creators", n, 1)
+
+
 def rule_g5(repo, col):
     c = repo.cls(MOD, "LogicFormula")
     m = c.module
@@ -336,5 +375,6 @@ def run(repo, col):
     rule_g2(repo, col)
     rule_g3_g6(repo, col)
     rule_g4b(repo, col)
+    rule_g4c(repo, col)
     rule_g5(repo, col)
     rule_g7(repo, col)
